@@ -678,15 +678,16 @@ void TasmanianSparseGrid::mapConformalCanonicalToTransformed(int num_dimensions,
             c[j].resize(conformal_asin_power[j] + 1);
             p[j].resize(conformal_asin_power[j] + 1);
         }
-        double lgamma_half = std::lgamma(0.5);
         std::vector<double> cm(num_dimensions, 0.0);
         for(int j=0; j<num_dimensions; j++){
             double factorial = 0.0;
+            double lgamma_ratio = 0.0; // log(Gamma(k + 1/2) / Gamma(1/2)), std::lgamma() writes to a global and is not thread safe
             for(int k=0; k<=conformal_asin_power[j]; k++){
                 p[j][k] = (double)(2*k+1);
-                c[j][k] = std::lgamma(0.5 + ((double) k)) - lgamma_half - std::log(p[j][k]) - factorial;
+                c[j][k] = lgamma_ratio - std::log(p[j][k]) - factorial;
                 cm[j] += std::exp(c[j][k]);
                 factorial += std::log((double)(k+1));
+                lgamma_ratio += std::log(0.5 + ((double) k));
             }
         }
         Utils::Wrapper2D<double> xwrap(num_dimensions, x);
@@ -716,17 +717,18 @@ template<typename FloatType> void TasmanianSparseGrid::mapConformalTransformedTo
             dc[j].resize(conformal_asin_power[j] + 1);
             dp[j].resize(conformal_asin_power[j] + 1);
         }
-        double lgamma_half = std::lgamma(0.5);
         std::vector<double> cm(num_dimensions, 0.0);
         for(int j=0; j<num_dimensions; j++){
             double factorial = 0.0;
+            double lgamma_ratio = 0.0; // log(Gamma(k + 1/2) / Gamma(1/2)), std::lgamma() writes to a global and is not thread safe
             for(int k=0; k<=conformal_asin_power[j]; k++){
                 p[j][k] = (double)(2*k+1);
-                c[j][k] = std::lgamma(0.5 + ((double) k)) - lgamma_half - std::log(p[j][k]) - factorial;
+                c[j][k] = lgamma_ratio - std::log(p[j][k]) - factorial;
                 cm[j] += std::exp(c[j][k]);
                 dp[j][k] = (double)(2*k);
-                dc[j][k] = std::lgamma(0.5 + ((double) k)) - lgamma_half - factorial;
+                dc[j][k] = lgamma_ratio - factorial;
                 factorial += std::log((double)(k+1));
+                lgamma_ratio += std::log(0.5 + ((double) k));
             }
         }
         for(int i=0; i<num_points; i++){
@@ -777,15 +779,16 @@ void TasmanianSparseGrid::mapConformalWeights(int num_dimensions, int num_points
             c[j].resize(conformal_asin_power[j] + 1);
             p[j].resize(conformal_asin_power[j] + 1);
         }
-        double lgamma_half = std::lgamma(0.5);
         std::vector<double> cm(num_dimensions);
         for(int j=0; j<num_dimensions; j++){
             double factorial = 0.0;
+            double lgamma_ratio = 0.0; // log(Gamma(k + 1/2) / Gamma(1/2)), std::lgamma() writes to a global and is not thread safe
             cm[j] = 0.0;
             for(int k=0; k<=conformal_asin_power[j]; k++){
                 p[j][k] = (double)(2*k);
-                c[j][k] = std::lgamma(0.5 + ((double) k)) - lgamma_half - factorial;
+                c[j][k] = lgamma_ratio - factorial;
                 factorial += std::log((double)(k+1));
+                lgamma_ratio += std::log(0.5 + ((double) k));
                 cm[j] += std::exp(c[j][k] - std::log((double)(2*k+1)));
             }
         }
